@@ -17,10 +17,10 @@ const verifHexTail = "0123456789abcdef0123456789abcdef0123456789abcdef0123456789
 // directories) are arbitrary bytes: either ParseDigest rejects it, or the
 // blob operations of the origin store stay inside the store directories.
 func VerifBlobNameConfined() {
-	t := httputil.KseLayout()
+	t := httputil.KseLayout(true)
 	cas, err := store.NewCAStore(store.CAStoreConfig{
-		UploadDir:            t.Roots[0],
-		CacheDir:             t.Roots[1],
+		UploadDir:            t.Dir(0),
+		CacheDir:             t.Dir(1),
 		UploadCleanup:        store.CleanupConfig{Disabled: true},
 		CacheCleanup:         store.CleanupConfig{Disabled: true},
 		SkipHashVerification: true, // the name is the subject here, not the content
